@@ -55,6 +55,7 @@ type Term struct {
 	a, b, c *Term
 	name    string
 	id      int
+	h       uint64 // structural hash: independent of creation order, so that canonical operand order is the same in every worker
 	defined bool // a define-fun / declare-const has been sent to the solver
 	fvDone  bool
 	fvN     int8  // number of distinct free variables, capped at 2
@@ -101,9 +102,28 @@ func (tt *TermTable) mk(op Op, w uint8, k uint64, a, b, c *Term, name string) *T
 		return t
 	}
 	t := &Term{op: op, w: w, k: k, a: a, b: b, c: c, name: name, id: tt.nextID}
+	h := uint64(op)*0x9E3779B97F4A7C15 ^ uint64(w)*0xC2B2AE3D27D4EB4F ^ k*0x165667B19E3779F9
+	for i := 0; i < len(name); i++ {
+		h = (h ^ uint64(name[i])) * 0x100000001B3
+	}
+	for _, x := range [3]*Term{a, b, c} {
+		h = h*0xFF51AFD7ED558CCD + 0x2545F4914F6CDD1D
+		if x != nil {
+			h ^= x.h
+		}
+	}
+	t.h = h
 	tt.nextID++
 	tt.tab[key] = t
 	return t
+}
+
+// termAfter is the canonical operand order of commutative operators.
+func termAfter(a, b *Term) bool {
+	if a.h != b.h {
+		return a.h > b.h
+	}
+	return a.id > b.id
 }
 
 func mask(w uint8) uint64 {
@@ -182,7 +202,7 @@ func (tt *TermTable) And(a, b *Term) *Term {
 	if (a.op == OpNot && a.a == b) || (b.op == OpNot && b.a == a) {
 		return tt.False
 	}
-	if a.id > b.id {
+	if termAfter(a, b) {
 		a, b = b, a
 	}
 	return tt.mk(OpAnd, 0, 0, a, b, nil, "")
@@ -207,7 +227,7 @@ func (tt *TermTable) Or(a, b *Term) *Term {
 	if (a.op == OpNot && a.a == b) || (b.op == OpNot && b.a == a) {
 		return tt.True
 	}
-	if a.id > b.id {
+	if termAfter(a, b) {
 		a, b = b, a
 	}
 	return tt.mk(OpOr, 0, 0, a, b, nil, "")
@@ -297,7 +317,7 @@ func (tt *TermTable) Eq(a, b *Term) *Term {
 			}
 		}
 	}
-	if a.id > b.id {
+	if termAfter(a, b) {
 		a, b = b, a
 	}
 	return tt.mk(OpEq, 0, 0, a, b, nil, "")
